@@ -644,3 +644,82 @@ def check_operator_table(seed, n_cases=0):
                                    ("dict | result", {"a": 1, "b": 1}, {"a": 2}, op.or_), ("int - result", 10, 3, op.sub), ("int ** result", 2, 5, op.pow)]:
         run_case(label, (lambda left=left, right=right, f=f: (lambda: f(left, val(right))))(), lambda left=left, right=right, f=f: f(left, right))
     return viol, cases
+
+
+# =====================================================================================================================
+def check_id_strings(seed, n_cases=120):
+    """the string-level facts that every proof ASSUMES about generated ids (ids are an uninterpreted sort there):
+    a fresh id per call site (count_occurrences / _lazy_xn_id), distinct argument holders (make_axn_id / make_suffix),
+    injective prefixing of nested DAGs -- exercised with function names that CONTAIN the separator substrings
+    (realistic qualified names: dots, '<locals>', '<lambda>', digits, names that are prefixes of each other, DAG names equal to
+    function names), reuse of one function up to 6 times, keyword and positional constants, and nesting
+    depth <= 3.  Oracle: the plain sequential evaluation; every call site executes exactly once."""
+    from tawazi import dag, xn
+
+    rnd = random.Random(seed)
+    viol, cases = [], 0
+    # qualified names a Python function can really have (dots, <locals>, <lambda>, digits, prefixes of each other)
+    nasty = ["f", "f1", "f11", "f_1", "g.h", "g.h.f", "outer.<locals>.f", "outer.<locals>.f1", "<lambda>", "C.method"]
+    for idx in range(n_cases):
+        cases += 1
+        names = rnd.sample(nasty, rnd.randint(1, 3))
+        counts = {}
+        fns = {}
+        for nm in names:
+            def mkf(nm=nm):
+                def body(a=0, k=0):
+                    counts[nm] = counts.get(nm, 0) + 1
+                    return (nm, a, k)
+
+                body.__name__ = body.__qualname__ = nm
+                return body
+
+            fns[nm] = mkf()
+        plan = [(rnd.choice(names), rnd.choice(["const", "prev", "none"]), rnd.random() < 0.4) for _ in range(rnd.randint(1, 6))]
+        depth = rnd.randint(0, 2)
+
+        def evaluate(call):
+            prev = ("start",)
+            outs = []
+            for nm, how, with_kw in plan:
+                a = 7 if how == "const" else (prev if how == "prev" else 0)
+                kw = {"k": 3} if with_kw else {}
+                prev = call(nm, a, kw) if how != "none" else call(nm, None, kw)
+                outs.append(prev)
+            return tuple(outs)
+
+        def plain_call(nm, a, kw):
+            return fns[nm](*(() if a is None else (a,)), **kw)
+
+        exp = evaluate(plain_call)
+        exp_counts = dict(counts)
+        counts.clear()
+        try:
+            with warnings.catch_warnings():
+                warnings.simplefilter("ignore")
+                xns = {nm: xn(fns[nm]) for nm in names}
+
+                def body():
+                    return evaluate(lambda nm, a, kw: xns[nm](*(() if a is None else (a,)), **kw))
+
+                body.__name__ = body.__qualname__ = rnd.choice(["pipe", "p.q", "f", "outer.<locals>.pipe"])
+                d = dag(body)
+                for lvl in range(depth):
+                    def make_wrap(inner):
+                        def wrap():
+                            return inner()
+
+                        return wrap
+
+                    wrap = make_wrap(d)
+                    wrap.__name__ = wrap.__qualname__ = rnd.choice(["outer", "o.p", body.__name__, "f"]) + rnd.choice(["", str(lvl)])
+                    d = dag(wrap)
+                got = d()
+        except Exception as e:  # noqa: BLE001
+            viol.append(dict(kind="history", check="id_strings", seed=seed, index=idx, violations=[f"[C03] names {names} plan {plan} depth {depth}: building / running raised {type(e).__name__}: {str(e)[:120]}"]))
+            continue
+        if tuple(got) != exp:
+            viol.append(dict(kind="history", check="id_strings", seed=seed, index=idx, violations=[f"[C03] names {names} plan {plan} depth {depth}: DAG returned {got!r}, plain evaluation {exp!r}"]))
+        elif counts != exp_counts:
+            viol.append(dict(kind="history", check="id_strings", seed=seed, index=idx, violations=[f"[C03] names {names} plan {plan} depth {depth}: executions per function {counts}, expected {exp_counts} (one per call site)"]))
+    return viol, cases
